@@ -213,4 +213,128 @@ theorem plan_loop_is_model (fs : Stream.Files α) (C itemsize bitfact stride N :
         simp only [planLoop, hstep, Plan.runLoop, if_neg h1, if_neg h2, List.map_cons]
         exact ⟨by rw [i1, hseg], i2, i3⟩
 
+/-! ### `FilReader.read_block` at byte level -/
+
+private theorem cum_dvd (fs : Stream.Files α) (w : Nat)
+    (hfiles : ∀ f ∈ fs, w ∣ f.data.length ∧ w ∣ f.hdr.length) (i : Nat) : w ∣ Stream.cum fs i := by
+  induction fs generalizing i with
+  | nil => simp
+  | cons f fs ih =>
+    cases i with
+    | zero => simp
+    | succ i =>
+      rw [Stream.cum_cons_succ]
+      exact Nat.dvd_add (hfiles f List.mem_cons_self).1
+        (ih (fun g hg => hfiles g (List.mem_cons_of_mem _ hg)) i)
+
+/-- `cread` only uses `count = nunits / bitfact` -/
+private theorem cread_bitfact (env : SeekEnv) (st : SeekSt) (x bf w : Int) (fuel : Nat) :
+    cread env st x bf w fuel = cread env st (x / bf) 1 w fuel := by
+  simp only [cread, Int.ediv_one]
+
+/-- **the translated `read_block` (range check, absolute seek, counted read over the translated `FileReader`) is
+`Stream.readBlock`**: for every file list whose members hold whole items, every reader state, start and length it
+returns the bytes the model returns (`readBlock_in_range`: samples `[s, s+n)` of the concatenated data sections)
+and fails exactly when the model fails. -/
+theorem read_block_is_model (fs : Stream.Files α) (C itemsize bitfact stride N : Nat)
+    (hbf : 0 < bitfact) (hdiv : bitfact ∣ C) (hw : 0 < itemsize) (hst : 0 < stride)
+    (hstride : C * itemsize = stride * bitfact) (hT : Stream.total fs = N * stride)
+    (hfiles : ∀ f ∈ fs, itemsize ∣ f.data.length ∧ itemsize ∣ f.hdr.length)
+    (st : SeekSt) (hv : ValidSt fs st) (s n : Int) (hn : 0 ≤ n) (fuel : Nat) (hf : fs.length + 1 ≤ fuel) :
+    (∀ segs r st', read_block_bytes (seekEnv fs) st s n (N : Int) (C : Int) (itemsize : Int) (bitfact : Int) fuel
+          = .ok ((segs, r), st') → Stream.readBlock fs stride N s n = .ok (segBytes fs segs)) ∧
+    (∀ e, read_block_bytes (seekEnv fs) st s n (N : Int) (C : Int) (itemsize : Int) (bitfact : Int) fuel = .error e →
+          ∃ e', Stream.readBlock fs stride N s n = .error e') := by
+  have _ := hst
+  have _ := hv
+  have hss := sampStride_eq C itemsize bitfact stride hbf hstride
+  by_cases hr : s < 0 ∨ s + n > (N : Int)
+  · refine ⟨fun segs r st' h => ?_, fun e _ => ⟨.valueError, ?_⟩⟩
+    · simp only [read_block_bytes, if_pos hr] at h
+      cases h
+    · simp only [Stream.readBlock, if_pos hr]
+  · obtain ⟨m, rfl⟩ := Int.eq_ofNat_of_zero_le hn
+    obtain ⟨k, hk⟩ := hdiv
+    have hks : k * itemsize = stride := by
+      have h1 : bitfact * (k * itemsize) = bitfact * stride := by
+        rw [← Nat.mul_assoc, ← hk, hstride, Nat.mul_comm]
+      exact Nat.eq_of_mul_eq_mul_left hbf h1
+    have hcount : (C : Int) * (m : Int) / (bitfact : Int) = ((k * m : Nat) : Int) := by
+      have : C * m = bitfact * (k * m) := by rw [hk, Nat.mul_assoc]
+      rw [← Int.natCast_mul, this, Int.natCast_mul bitfact, Int.mul_ediv_cancel_left _ (by omega)]
+    have hbytes : k * m * itemsize = m * stride := by
+      rw [← hks, Nat.mul_comm k m, Nat.mul_assoc]
+    by_cases ho : s * (stride : Int) < 0 ∨ s * (stride : Int) ≥ (Stream.total fs : Int)
+    · have hset := seek_set_out_of_range fs st (s * (stride : Int)) ho
+      have hseek : seek (seekEnv fs) st (s * sampStride (C : Int) (itemsize : Int) (bitfact : Int)) 0
+          = .error "ValueError" := by
+        simp only [seek, if_true, hss, hset]
+      refine ⟨fun segs r st' h => ?_, fun e _ => ⟨.valueError, ?_⟩⟩
+      · simp only [read_block_bytes, if_neg hr, hseek] at h
+        cases h
+      · simp only [Stream.readBlock, if_neg hr, Stream.seekSet_rejects' fs _ ho]
+    · have hs0 : 0 ≤ s := by omega
+      obtain ⟨s', rfl⟩ := Int.eq_ofNat_of_zero_le hs0
+      have hoN : ((s' : Int) * (stride : Int)).toNat = s' * stride := by
+        rw [← Int.natCast_mul, Int.toNat_natCast]
+      obtain ⟨j, r, hj, hloc, hr', hc⟩ := Stream.locate_spec fs 0 ((s' : Int) * (stride : Int)).toNat (by omega)
+      rw [Nat.zero_add] at hloc
+      obtain ⟨j2, r2, _, hloc2, hset⟩ := seek_set_in_range fs st ((s' : Int) * (stride : Int)) (by omega) (by omega)
+      rw [hloc] at hloc2
+      simp only [Option.some.injEq, Prod.mk.injEq] at hloc2
+      obtain ⟨rfl, rfl⟩ := hloc2
+      rw [← Int.natCast_add] at hset
+      have hseek : seek (seekEnv fs) st ((s' : Int) * sampStride (C : Int) (itemsize : Int) (bitfact : Int)) 0
+          = .ok ((), ⟨(j : Int), ((Stream.hdrlen fs j + r : Nat) : Int)⟩) := by
+        simp only [seek, if_true, hss, hset]
+      have hmodel : Stream.seekSet fs ((s' : Int) * (stride : Int)) = .ok ⟨j, Stream.hdrlen fs j + r⟩ := by
+        simp only [Stream.seekSet, ho, if_false, hloc]
+      have hts : toSt ⟨(j : Int), ((Stream.hdrlen fs j + r : Nat) : Int)⟩ = ⟨j, Stream.hdrlen fs j + r⟩ := by
+        simp only [toSt, Int.toNat_natCast]
+      have hHl := Stream.hdrlen_of_lt fs j hj
+      have hgd := ReadLoops.getD_of_lt fs j hj
+      have hIn : InFile fs ⟨(j : Int), ((Stream.hdrlen fs j + r : Nat) : Int)⟩ := by
+        apply inFile_nat fs j _ hj
+        rw [hgd, Stream.content_length, hHl]
+        omega
+      have hdr : itemsize ∣ r := by
+        have h1 : itemsize ∣ Stream.cum fs j := cum_dvd fs itemsize hfiles j
+        have h2 : itemsize ∣ Stream.cum fs j + r := by
+          rw [hc, hoN, ← hks, ← Nat.mul_assoc]
+          exact Nat.dvd_mul_left _ _
+        exact (Nat.dvd_add_right h1).1 h2
+      have hpos : ((itemsize : Nat) : Int) ∣ ((Stream.hdrlen fs j + r : Nat) : Int) :=
+        Int.natCast_dvd_natCast.mpr (Nat.dvd_add (ReadLoops.hdrlen_dvd fs itemsize j hj hfiles) hdr)
+      have hdata : (((fs.getD (j : Int).toNat ⟨[], []⟩).hdr.length : Nat) : Int)
+          ≤ ((Stream.hdrlen fs j + r : Nat) : Int) := by
+        rw [Int.toNat_natCast, hgd, ← hHl]
+        omega
+      obtain ⟨c1, c2⟩ := cread_is_model fs ⟨(j : Int), ((Stream.hdrlen fs j + r : Nat) : Int)⟩ (k * m) itemsize fuel
+        hIn hf hw hfiles hpos hdata
+      rw [hts, hbytes] at c1 c2
+      have hrb : read_block_bytes (seekEnv fs) st (s' : Int) (m : Int) (N : Int) (C : Int) (itemsize : Int)
+          (bitfact : Int) fuel
+          = cread (seekEnv fs) ⟨(j : Int), ((Stream.hdrlen fs j + r : Nat) : Int)⟩ ((k * m : Nat) : Int) 1
+              (itemsize : Int) fuel := by
+        simp only [read_block_bytes, if_neg hr, hseek]
+        rw [cread_bitfact, hcount]
+      have hmb : Stream.readBlock fs stride N (s' : Int) (m : Int)
+          = match Stream.cread fs (m * stride) ⟨j, Stream.hdrlen fs j + r⟩ with
+            | (.ok bs, _) => .ok bs
+            | (.error e, _) => .error e := by
+        simp only [Stream.readBlock, if_neg hr, hmodel, Int.toNat_natCast]
+        rfl
+      rw [hrb, hmb]
+      generalize Stream.cread fs (m * stride) ⟨j, Stream.hdrlen fs j + r⟩ = res at c1 c2
+      obtain ⟨a, b⟩ := res
+      refine ⟨fun segs r st' h => ?_, fun e h => ⟨.valueError, ?_⟩⟩
+      · have := (c1 segs r st' h).1
+        dsimp only at this
+        subst this
+        rfl
+      · have := c2 e h
+        dsimp only at this
+        subst this
+        rfl
+
 end SppModel.Tie.ReadPlanLoop
